@@ -136,6 +136,34 @@ GENERIC_TWINS = [("unparse-roundtrip", twin_unparse), ("rename-locals", twin_ren
 
 
 # ------------------------------------------------------------------------------ runner
+def _eval_overlay(job):
+    """worker: run one property on one overlay -> (status, [violation dicts], error)"""
+    prop, root, ov, seed = job
+    from .cli import run_property
+    try:
+        r2 = Repo(root, overlay=ov)
+        st, lines, c2, err = run_property(prop, r2, "quick", seed, write=False)
+        return st, [{"rule": v["rule"], "key": v["key"], "site": v["site"], "detail": v["detail"]} for v in c2.violations], err
+    except AnalysisError as e:
+        return 2, [], str(e)
+    except Exception as e:          # pragma: no cover
+        return 2, [], "internal error %s: %s" % (type(e).__name__, e)
+
+
+def _map(jobs):
+    import multiprocessing
+    import os
+    n = min(len(jobs), int(os.environ.get("GVERIF_JOBS", "0")) or (os.cpu_count() or 1), 16)
+    if n <= 1 or len(jobs) <= 2:
+        return [_eval_overlay(j) for j in jobs]
+    try:
+        ctx = multiprocessing.get_context("fork")
+        with ctx.Pool(n) as pool:
+            return pool.map(_eval_overlay, jobs, chunksize=1)
+    except Exception:
+        return [_eval_overlay(j) for j in jobs]
+
+
 def run(prop, repo, seed=0, verbose=False):
     from .cli import run_property
     try:
@@ -145,21 +173,24 @@ def run(prop, repo, seed=0, verbose=False):
     base_status, _, base_ctx, base_err = run_property(prop, repo, "quick", seed, write=False)
     base_keys = set(v["key"] for v in base_ctx.violations) | set(rec["key"] for _, rec in base_ctx.known_hits)
     res = {"mutants": 0, "killed": 0, "skipped": 0, "twins": 0, "twins_silent": 0, "failures": [], "detail": []}
-    for mu in getattr(mm, "MUTANTS", []):
+    mutants = list(getattr(mm, "MUTANTS", []))
+    overlays = [mu.overlay(repo) for mu in mutants]
+    twins = [(n, fn(repo)) for n, fn in GENERIC_TWINS]
+    for tw in getattr(mm, "TWINS", []):
+        twins.append((tw.id, tw.overlay(repo)))
+    jobs = [(prop, repo.root, ov, seed) for ov in overlays if ov is not None] + [(prop, repo.root, ov, seed) for _, ov in twins if ov is not None]
+    results = _map(jobs)
+    it = iter(results)
+    for mu, ov in zip(mutants, overlays):
         res["mutants"] += 1
-        ov = mu.overlay(repo)
         if ov is None:
             res["skipped"] += 1
             res["detail"].append({"mutant": mu.id, "verdict": "skipped (anchor text changed)"})
             if verbose:
                 print("   skip %s" % mu.id)
             continue
-        try:
-            r2 = Repo(repo.root, overlay=ov)
-            st, lines, c2, err = run_property(prop, r2, "quick", seed, write=False)
-        except AnalysisError as e:
-            st, c2, err = 2, None, str(e)
-        new = [v for v in (c2.violations if c2 else []) if v["key"] not in base_keys]
+        st, vio, err = next(it)
+        new = [v for v in vio if v["key"] not in base_keys]
         hit = [v for v in new if mu.rule is None or v["rule"] == mu.rule]
         if st in (1, 2) and hit:
             res["killed"] += 1
@@ -167,7 +198,6 @@ def run(prop, repo, seed=0, verbose=False):
             if verbose:
                 print("   kill %s by %s" % (mu.id, sorted(set(v["rule"] for v in new))))
         elif st == 2 and err and mu.rule is None:
-            # fail-closed detection (analysis error) is accepted only for mutants that declare no rule
             res["killed"] += 1
             res["detail"].append({"mutant": mu.id, "verdict": "fail-closed", "error": err[:200]})
         else:
@@ -176,21 +206,14 @@ def run(prop, repo, seed=0, verbose=False):
             res["detail"].append({"mutant": mu.id, "verdict": "MISSED"})
             if verbose:
                 print("   MISS %s" % mu.id)
-    twins = [(n, fn(repo)) for n, fn in GENERIC_TWINS]
-    for tw in getattr(mm, "TWINS", []):
-        twins.append((tw.id, tw.overlay(repo)))
+    base_rf = set(tuple(k.split("|")[:2]) for k in base_keys)
     for name, ov in twins:
         if ov is None:
             res["detail"].append({"twin": name, "verdict": "skipped (anchor text changed)"})
             continue
         res["twins"] += 1
-        try:
-            r2 = Repo(repo.root, overlay=ov)
-            st, lines, c2, err = run_property(prop, r2, "quick", seed, write=False)
-        except AnalysisError as e:
-            st, c2, err = 2, None, str(e)
-        base_rf = set(tuple(k.split("|")[:2]) for k in base_keys)
-        new = [v for v in (c2.violations if c2 else []) if tuple(v["key"].split("|")[:2]) not in base_rf]
+        st, vio, err = next(it)
+        new = [v for v in vio if tuple(v["key"].split("|")[:2]) not in base_rf]
         if err is None and not new:
             res["twins_silent"] += 1
             res["detail"].append({"twin": name, "verdict": "silent"})
